@@ -69,20 +69,41 @@ def VPool.release (p : VPool) (c : RegSet) : VPool :=
 /-! ### continuation pools (luaContPool, goContPool): a bounded stack -/
 
 structure CPool where
-  conts : List Nat      -- ids, top of stack last; length = `next`
+  conts : List Nat      -- ids, TOP OF STACK FIRST; length = `next`
   cap : Nat
   nextId : Nat
   deriving Repr, Inhabited
 
 def CPool.new (cap : Nat) : CPool := { conts := [], cap := cap, nextId := 1 }
 
+/-- `get`: pop, or `new(LuaCont)` when empty -/
 def CPool.get (p : CPool) : CPool × Nat :=
-  match p.conts.getLast? with
-  | none => ({ p with nextId := p.nextId + 1 }, p.nextId)
-  | some c => ({ p with conts := p.conts.dropLast }, c)
+  match p.conts with
+  | [] => ({ p with nextId := p.nextId + 1 }, p.nextId)
+  | c :: rest => ({ p with conts := rest }, c)
 
+/-- `release`: push unless full (the continuation is zeroed first — contents are not modelled) -/
 def CPool.release (p : CPool) (c : Nat) : CPool :=
-  if p.conts.length = p.cap then p else { p with conts := p.conts ++ [c] }
+  if p.conts.length = p.cap then p else { p with conts := c :: p.conts }
+
+/-- the VM as a client of a continuation pool: `live` = continuations handed out and not yet
+released.  Releasing something that is not live (a double release) is the client error the
+discipline excludes; here it is a no-op. -/
+structure CSys where
+  pool : CPool
+  live : List Nat
+  deriving Repr, Inhabited
+
+inductive COp where
+  | get
+  | release (c : Nat)
+  deriving Repr, DecidableEq
+
+def CSys.init (cap : Nat) : CSys := { pool := CPool.new cap, live := [] }
+
+def CSys.step (s : CSys) : COp → CSys
+  | .get => let (p, c) := s.pool.get; { pool := p, live := c :: s.live }
+  | .release c => if c ∈ s.live then { pool := s.pool.release c, live := s.live.erase c } else s
 
 /-! ### a client using the pool, and the same client on the trivial allocator -/
 
